@@ -36,6 +36,21 @@ def main(args):
             ok &= tlc_expect_violation(scratch, "MC_Stream.tla", cfg, "Safety")
         ok &= tlc_expect_violation(scratch, "MC_C17.tla", "MC_C17_neg.cfg", "SequentialResults")
 
+        print("1b. coverage: every action of the process-style specifications is taken in the bounded model")
+        for spec, cfg, actions in (("MC_Stream.tla", "MC_Stream_xmlh_quick.cfg", ["ReadData", "ReadDataEof", "ReadZero", "ReadEof", "PendEof", "Verdict"]),
+                                   ("MC_Stream.tla", "MC_Stream_cut_quick.cfg", ["ReadData", "ReadDataEof", "ReadZero", "ReadEof", "PendEof"]),
+                                   ("MC_C17.tla", "MC_C17_p2.cfg", ["Step"]),
+                                   ("MC_C18.tla", "MC_C18_hist2.cfg", ["NextHist"])):
+            sd = check.prepare_spec_dir(scratch)
+            meta = tempfile.mkdtemp(prefix="meta_", dir=scratch)
+            r = subprocess.run(["timeout", "300"] + check.tlc_cmd(spec, cfg, meta, 4, ["-coverage", "1"]), cwd=sd, stdout=subprocess.PIPE, stderr=subprocess.STDOUT, text=True)
+            for act in actions:
+                import re
+                mm = re.findall(r"^<%s line .*>: (\d+):(\d+)" % act, r.stdout, re.M)
+                taken = sum(int(x[1]) for x in mm)
+                print("  %-28s %-12s taken %d times" % (cfg, act, taken))
+                ok &= taken > 0
+
         print("2. recorded trace: accepted / rejected when corrupted")
         harness = check.build_harness(scratch)
         sd = check.prepare_spec_dir(scratch)
